@@ -23,6 +23,29 @@ ASSUMPTIONS = ["the scaling spec (which parameters are linear) is written from t
 WF = "pulser.waveforms"
 
 
+def _slice_leaves(t) -> set:
+    """Leaves of a slice-bound term: everything that is not a conditional or a min/max/clip call."""
+    from .. import bounds, sym
+
+    out = set()
+
+    def walk(x):
+        x = bounds.unwrap(x)
+        if x[0] == "ifexp":
+            walk(x[2]); walk(x[3])
+            return
+        mm = bounds._minmax(x)
+        if mm is not None:
+            for a in mm[1]:
+                walk(a)
+            return
+        if x[0] != "call":
+            out.add(x)
+
+    walk(t)
+    return out
+
+
 def _param_attrs(E: Engine, c: ClassInfo) -> dict[str, set]:
     """constructor parameter -> attribute that stores it (from __init__: self._x = f(param))."""
     init = E.P.lookup_method(c, "__init__")[0]
@@ -143,7 +166,26 @@ def run(E: Engine, rep: Report, tier: str) -> dict:
     lo = any(l.atom is not None and l.atom.rel == "Lt" and "i" in l.atom.lhs.roots and "Neg" in l.atom.rhs.tags and "self.duration" in l.atom.rhs.roots for _ln, c_ in conj for l in c_)
     hi = any(l.atom is not None and l.atom.rel == "GtE" and "i" in l.atom.lhs.roots and "self.duration" in l.atom.rhs.roots and "Neg" not in l.atom.rhs.tags for _ln, c_ in conj for l in c_)
     rep.check(lo and hi, "BASE", "Waveform._check_index|range", "index rejected iff i < -duration or i >= duration", "Waveform._check_index bounds changed", E.where(ci))
-    rep.floor("BASE", 5)
+    # slice bounds: a negative bound wraps around in numpy, so both returned bounds must be provably >= 0
+    # (symbolic-bounds prover over the normal form; conditionals, min/max/clip and comparison facts only)
+    from .. import bounds, sym
+    from .symutil import S, sh
+
+    cs = base.methods["_check_slice"][0]
+    r = S(E, cs).ret
+    while r[0] == "obj":
+        r = r[2]
+    if r[0] != "slice":
+        raise AnalysisError(f"anchor: Waveform._check_slice no longer returns a slice expression ({sh(r, 80)})")
+    dur = ("attr", ("name", "self"), "duration")
+    pv = bounds.Prover(axioms=[(bounds.ZERO, dur)])
+    for nm, t in (("start", r[1]), ("stop", r[2])):
+        if not bounds.in_fragment(t, _slice_leaves(t)):
+            rep.excepted("BASE", f"Waveform._check_slice|{nm}>=0", f"slice {nm} is computed with constructs outside the bounds prover's fragment: not decided", E.where(cs))
+            continue
+        rep.check(pv.ge(t, bounds.ZERO), "BASE", f"Waveform._check_slice|{nm}>=0", f"the returned {nm} is provably >= 0 on every path",
+                  f"Waveform._check_slice can return a negative {nm} (no path-insensitive proof of {nm} >= 0 from the clamps): a negative bound wraps around in the samples array, so waveform[a:b] returns samples outside [a, b)", E.where(cs))
+    rep.floor("BASE", 7)
 
     # --------------------------------------------------------------- GUARD
     wi = base.methods["__init__"][0]
